@@ -13,16 +13,17 @@ LEVEL = "model_checking"
 MANIFEST = dict(
     level="model_checking",
     text="TLC enumerates every authorisation case within bounds - plain account and every multi-signature configuration of up to 3 signers "
-         "with weights from {1,49,50,51,100} (total >= 100), every sequence of up to 3 signatures by registered signers / the account's own key / "
-         "a foreign key in both signature encodings, each of 12 signed fields changed after any subset of an honest signature set was made, "
-         "reimbursed-gas transactions (plain and multi-signature payer, payer signatures missing / foreign / repeated / made before gas terms or "
-         "sender signatures changed), box-wrapped transactions (also with a box signed by a foreign key), vote transactions and "
-         "re-configurations of the signers - and checks ten clauses on each (effect only if authorised, canonical accepted, repetition / foreign "
-         "keys / removal never help, encoding irrelevant, tampering falsifies, payer binds, exact threshold, re-configuration iff packaged). "
-         "Every case is replayed as a real signed transaction on a real mining node (MineBlock) and, in a block, on a second real node "
-         "(InsertBlock; forged block with the executed state roots when the miner refused); TLC validates every logged outcome and account-state "
-         "delta against the monitor: any effect => Authorized for the really registered signers, canonical authorised => packaged and accepted, "
-         "effect = that of the submitted content, refusal changes nothing. A seeded driver does the same for random large accounts (up to 100 signers).",
+         "with weights from {1,49,50,51,100} (total >= 100; plus two 4-signer accounts), every sequence of up to 3 signatures by registered signers / "
+         "the account's own key / a foreign key in both signature encodings, malformed signature bytes, each of 12 signed fields changed after any "
+         "subset of an honest signature set was made, reimbursed-gas transactions (plain and multi-signature payer; payer signatures missing / foreign / "
+         "repeated / made before gas terms, payer field or sender signatures changed), box-wrapped transactions (also reimbursed ones, and a box signed "
+         "by a foreign key), vote and asset-creation transactions and re-configurations of the signers - and checks ten clauses on each (effect only if "
+         "authorised, canonical accepted, repetition / foreign keys / removal never help, encoding irrelevant, tampering falsifies, payer binds, exact "
+         "threshold, re-configuration iff packaged). Every case is replayed as a real signed transaction on a real mining node (MineBlock) and, in a block, "
+         "on a second real node (InsertBlock; forged block with the executed state roots when the miner refused); TLC validates every logged outcome and "
+         "account-state delta against the monitor: any effect => Authorized for the really registered signers, canonical authorised => packaged and "
+         "accepted, effect = that of the submitted content, refusal changes nothing. A seeded driver does the same for random large accounts "
+         "(up to 100 signers, weights 1..100, up to 110 signatures).",
     note="One genuine defect is carried as named deviation Dev_MultisigCountsRepeatedSigner (checkSignersWeight adds a signer's weight once per "
          "signature): accepted only where exactly per-signature counting explains the acceptance; design-side negative control included. "
          "The arrival check of real nodes (VerifyTxBody) is applied before the miner, with the parent block's time as 'now'.",
@@ -34,7 +35,7 @@ DEV = "Dev_MultisigCountsRepeatedSigner"
 def stats(files):
     """Plain counts over the recorded lines (for the evidence file and the vacuity gate; no judgement)."""
     st = dict(offers=0, packaged=0, refused=0, intake_refused=0, validator_honest_ok=0, validator_forged=0, validator_forged_accepted=0,
-              repeated_signer_packaged=0)
+              packaged_carrying_a_repeated_signer=0)
     for f in files:
         for ln in open(f):
             e = json.loads(ln)
@@ -46,7 +47,7 @@ def stats(files):
                 for k in ("sigs", "psigs"):
                     by = [s["by"] for s in c[k]]
                     if e["packaged"] and len(by) != len(set(by)):
-                        st["repeated_signer_packaged"] += 1
+                        st["packaged_carrying_a_repeated_signer"] += 1
                         break
             elif e["ev"] == "Validate":
                 if e["mode"] == "honest" and e["ok"]:
@@ -93,4 +94,5 @@ def run(ctx):
         "the validating node is offered, for a refused transaction, the block of a dishonest deputy: header roots obtained by mining a properly signed "
         "twin with the same content, transaction replaced, header re-signed with the deputy's key; the twin's own block must be accepted (harness check)",
         "exact gas fees are not checked here (C05): the payer's balance must fall, the recipient's must rise by the signed amount",
-        "transaction kinds: transfer, vote, signer re-configuration, box; signature recovery (secp256k1) is trusted"]
+        "transaction kinds: transfer, vote, asset creation, signer re-configuration, box (the quick tier uses accounts of up to 2 signers plus "
+        "{1,49,50} and {49,50,51}); signature recovery (secp256k1) is trusted"]
